@@ -43,7 +43,7 @@ FAMILIES = {
     "c12-sparse-leaf": dict(n_axes=1, layout="intermediate", n_glyphs=12, composites=0.6, nested=False, transforms="scale", sparse_glyphs=0.7),
     "c12-sparse-leaf2": dict(n_axes=2, layout="mixed", n_glyphs=12, composites=0.6, nested=False, transforms="none", sparse_glyphs=0.7, mixed_glyphs=0.3),
     "c12-mixed-static": dict(n_axes=0, n_glyphs=12, composites=0.6, nested=True, transforms="scale", mixed_glyphs=0.5),
-    "c12-overflow": dict(n_axes=1, layout="onaxis", n_glyphs=10, composites=0.6, nested=True, transforms="overflow"),
+    "c12-overflow": dict(n_axes=1, layout="onaxis", n_glyphs=10, composites=0.6, nested=True, transforms="overflow", mixed_glyphs=0.35),
     "kern-static": dict(n_axes=0, n_glyphs=12, composites=0.0, kern=dict(pairs=25)),
     "kern-var1": dict(n_axes=1, layout="onaxis", n_glyphs=14, composites=0.0, kern=dict(pairs=30, partial=0.3)),
     "kern-divergent": dict(n_axes=2, layout="corners", n_glyphs=16, composites=0.0, kern=dict(pairs=40, divergent=0.8, partial=0.2)),
@@ -60,6 +60,7 @@ FAMILIES = {
     "bnd-static": dict(n_axes=0, n_glyphs=8, composites=0.4, transforms="scale", vertical=True, post=lambda m, r: M.boundary(m, r)),
     "bnd-var1": dict(n_axes=1, layout="onaxis", n_glyphs=8, composites=0.4, post=lambda m, r: M.boundary(m, r)),
     "bnd-corners": dict(n_axes=2, layout="corners", n_glyphs=5, composites=0.2, mapped=0.0, post=lambda m, r: M.boundary(m, r, kind="corner-delta")),
+    "bnd-compscale": dict(n_axes=1, layout="onaxis", n_glyphs=8, composites=0.6, nested=True, post=lambda m, r: M.boundary(m, r, kind="comp-scale")),
     "bnd-var2": dict(n_axes=2, layout="onaxis", n_glyphs=6, composites=0.4, nested=True, post=lambda m, r: M.boundary(m, r)),
     "rules-var1": dict(n_axes=1, layout="onaxis", n_glyphs=11, composites=0.0, curves="lines", ext_glyph_names=M.RULE_GLYPHS, mapped=0.5, post=lambda m, r: M.add_rules(m, r)),
     "rules-var2": dict(n_axes=2, layout="onaxis", n_glyphs=11, composites=0.0, curves="lines", ext_glyph_names=M.RULE_GLYPHS, mapped=0.5, post=lambda m, r: M.add_rules(m, r)),
@@ -95,7 +96,7 @@ BY_PROPERTY = {
     "C10": ["marks-static", "marks-var1", "marks-propagate", "marks-var2", "marks-intermediate", "marks-propagate-static", "marks-multi", "marks-propagate", "marks-stacked"],
     "C16": ["rules-var1", "rules-var2", "rules-var2", "rules-var3"],
     "C18": ["names-var1", "names-var2", "names-static", "names-var1-collide", "names-twin", "names-var1-collide"],
-    "C19": ["bnd-static", "bnd-var1", "bnd-var2", "bnd-static", "bnd-corners"],
+    "C19": ["bnd-static", "bnd-var1", "bnd-compscale", "bnd-var2", "bnd-static", "bnd-compscale", "bnd-corners", "bnd-compscale"],
     "C14": ["var1-noorder", "var2-mixed-sparse", "var1-mixedglyphs", "kern-var1", "kern-intermediate", "kern-divergent"],
 }
 
